@@ -39,6 +39,21 @@ def programs(tier):
     S3b, _ = ops_menu((0, 1, 2) if tier == "thorough" else (0, 1), (8, 32) if tier == "quick" else (8, 16, 32), ("r1", "r2"))
     for t in itertools.product(S3b, repeat=3):
         out.append(list(t))
+    # length 4, shape (any, store, store, load): two value registers, so that a loaded value can be stored elsewhere
+    # after its source was overwritten, and a narrow store can sit between a wide store and a wide load
+    S4b, L4b = ops_menu((0,) if tier == "quick" else (0, 1), (8, 32) if tier == "quick" else (8, 16, 32), ("r1", "r2"))
+    L4last = [l for l in L4b if l[1] == "r1"]
+    for a in S4b + L4b:
+        for b in S4b:
+            for c in S4b:
+                for d in L4last:
+                    out.append([a, b, c, d])
+    # length 4, shape (store, store, store, load) with two offsets per pointer (one value register): a store at another
+    # offset of the load's own base precedes a narrower store at the load address and a later store through the other base
+    S4c, L4c = ops_menu((0, 1), (8, 32), ("r1",))
+    for t in itertools.product(S4c, S4c, S4c, L4c):
+        if any(op[2] if op[0] == "st" else op[3] for op in t):      # offset-0-only programs are in the family above
+            out.append(list(t))
     if tier == "thorough":
         S4, L4 = ops_menu((0, 1), (8, 32), ("r1",))
         A4 = S4 + L4
@@ -271,6 +286,39 @@ def vsig(what, prog, kinds, name, e, noalias):
     return (what, kinds, rel(name), "le" if e == 1 else "be", "noalias" if noalias else "alias")
 
 
+_REDUCE_CACHE = {}
+
+
+def _sub_failures(prog, e, noalias):
+    key = (tuple(map(tuple, prog)), e, noalias)
+    if key not in _REDUCE_CACHE:
+        if len(_REDUCE_CACHE) > 20000:
+            _REDUCE_CACHE.clear()
+        _REDUCE_CACHE[key] = check_program((prog, e, noalias))[0]
+    return _REDUCE_CACHE[key]
+
+
+def reduce_failure(prog, e, noalias, sig, what, name):
+    """delta-reduce a value mismatch: while dropping one operation leaves a program that shows the same kind of
+    mismatch under the same pointer assignment, continue with that program. The failure is reported under the
+    signature of the minimal program (a longer program that merely embeds a shorter failing one is the same finding)."""
+    if sig[0] not in ("load-value", "mem-value"):
+        return prog, sig, what
+    changed = True
+    while changed and len(prog) > 1:
+        changed = False
+        for k in range(len(prog)):
+            sub = prog[:k] + prog[k + 1:]
+            for s2, w2, n2 in _sub_failures(sub, e, noalias):
+                if s2[0] == sig[0] and n2 == name:
+                    prog, sig, what = sub, s2, w2
+                    changed = True
+                    break
+            if changed:
+                break
+    return prog, sig, what
+
+
 def run_chunk(chunk):
     fails = []
     n = ns = 0
@@ -279,8 +327,11 @@ def run_chunk(chunk):
         n += k
         ns += s
         for sig, what, name in out:
-            fails.append(Failure(sig, what, {"prog": c[0], "endian": c[1], "noaliasing": c[2], "q": name},
-                                 rank=len(c[0])).to_json())
+            prog = c[0]
+            if len(prog) >= 3:
+                prog, sig, what = reduce_failure(list(prog), c[1], c[2], sig, what, name)
+            fails.append(Failure(sig, what, {"prog": prog, "endian": c[1], "noaliasing": c[2], "q": name},
+                                 rank=len(prog)).to_json())
     return fails, n, ns, len(chunk)
 
 
@@ -304,12 +355,16 @@ def run(tier, seed):
         for f in fl:
             rep.add(Failure.from_json(f))
     # shadowing: a failing program that contains a failing shorter program
-    failing = set(json.dumps(f.case["prog"]) for f in rep.failures)
+    # (same kind of mismatch, same endianness and configuration only: a big-endian failure of a sub-program says
+    # nothing about a little-endian failure of the longer one)
+    def skey(f, prog):
+        return json.dumps([f.sig[0], f.case["endian"], f.case["noaliasing"], prog])
+    failing = set(skey(f, f.case["prog"]) for f in rep.failures)
     kept = []
     for f in rep.failures:
         p = f.case["prog"]
         sub = [p[i:j] for i in range(len(p)) for j in range(i + 1, len(p) + 1) if (j - i) < len(p)]
-        if any(json.dumps(s) in failing for s in sub):
+        if any(skey(f, s) in failing for s in sub):
             continue
         kept.append(f)
     shadowed = len(rep.failures) - len(kept)
@@ -324,7 +379,7 @@ def run(tier, seed):
                 "with noaliasing=True only assignments where p- and q-accesses do not overlap; non-trivial = distinct programs",
         "programs": len(P), "symbolic_results_interpreted": ns, "shadowed": shadowed,
         "samples": [P[0], P[len(P) // 2], P[-1]],
-        "bound": "length <=2 full alphabet, length 3 (>=1 store, >=1 load) reduced alphabet, all store-only triples" + (", length 4 reduced" if tier == "thorough" else ""),
+        "bound": "length <=2 full alphabet, length 3 (>=1 store, >=1 load) reduced alphabet, all store-only triples, length 4 of shape (any, store, store, load) over two value registers, (store, store, store, load) over two offsets" + (", length 4 reduced" if tier == "thorough" else ""),
     })
     return rep
 
